@@ -8,6 +8,7 @@ package exec
 import (
 	"fmt"
 	"go/types"
+	"math/big"
 
 	"gosym/smt"
 )
@@ -79,6 +80,14 @@ func init() {
 			p.pointEqLemma(x, r)
 		} else if r.Op == "mod" && r.Args[0].Op == "app" {
 			p.pointEqLemma(x, r.Args[0])
+		}
+		if r.IsConst() && x.Op == "app" {
+			// r is a numeral: for every concrete point known on this path whose x reduces to r
+			for _, q := range append([]concPt{}, p.concPts...) {
+				if q.curve == co.name && new(big.Int).Mod(q.x, co.N).Cmp(r.Val) == 0 {
+					p.pointConstLemma(x, c.IntC(q.x))
+				}
+			}
 		}
 		return normBool(c.Eq(xm, r))
 	}
